@@ -7,6 +7,9 @@
 //
 //	op deploy n=<size> delays=<ms,...> absent=<members|-> cancel=<member>@<blocks>|- rerun=<0|1>
 //	op boot   n=<size> live=<members>            (Notary bootstrap only, also for live sets that must stall)
+//	op upgrade n=<size> delays=<ms,...> before=<blocks>   (previous-version executables on chain, then the procedure with the
+//	                                             supplied ones, entered <blocks> ahead of a multiple of 100: every contract is
+//	                                             updated exactly once, the next run is inert)
 //
 // For `deploy` the observation is the outcome the property speaks about (never an interleaving); the property
 // monitor is evaluated on it. For `boot` the observation is compared with the Lean bootstrap model
@@ -55,6 +58,7 @@ import (
 	"github.com/nspcc-dev/neo-go/pkg/vm/opcode"
 	"github.com/nspcc-dev/neo-go/pkg/vm/stackitem"
 	"github.com/nspcc-dev/neo-go/pkg/wallet"
+	"github.com/nspcc-dev/neofs-contract/common"
 	"github.com/nspcc-dev/neofs-contract/contracts"
 	"github.com/nspcc-dev/neofs-contract/deploy"
 	"go.uber.org/zap"
@@ -712,6 +716,8 @@ func (w *world) execOp(line string) string {
 		return w.opDeploy(line, n, kv)
 	case "boot":
 		return w.opBoot(line, n, kv)
+	case "upgrade":
+		return w.opUpgrade(line, n, kv)
 	}
 	w.t.Fatalf("bad op %q", line)
 	return ""
@@ -819,6 +825,88 @@ func (w *world) opBoot(line string, n int, kv map[string]string) string {
 	}
 	w.run.Count(fmt.Sprintf("out.boot.blocks<%d", (took/10+1)*10))
 	return fmt.Sprintf("HALT ret=designated nsigs=%d within=%v ordered=%v", len(signers), within, asc)
+}
+
+// checkFinal: the state the property demands after all runs returned: roles, NNS id, names, executables (nd.fsc = the
+// supplied set), every contract once (Alphabet once per member). wantUpdates >= 0: every contract's update counter.
+func (nd *node) checkFinal(n int, out *outcome, wantUpdates int) []string {
+	var bad []string
+	out.Notary, out.Alphabet = nd.roleIs(noderoles.P2PNotary), nd.roleIs(noderoles.NeoFSAlphabet)
+	if !out.Notary {
+		bad = append(bad, "Notary role is not designated to exactly the committee")
+	}
+	if !out.Alphabet {
+		bad = append(bad, "NeoFSAlphabet role is not designated to exactly the committee")
+	}
+	cs := nd.contractsOnChain()
+	out.Contracts = len(cs)
+	var nns util.Uint160
+	if len(cs) > 0 && cs[0].ID == 1 && cs[0].Manifest.Name == nd.fsc[0].Manifest.Name && cs[0].NEF.Checksum == nd.fsc[0].NEF.Checksum {
+		out.NNSID1 = true
+		nns = cs[0].Hash
+	} else {
+		bad = append(bad, "contract with ID 1 is not the supplied NNS executable")
+	}
+	byHash := map[util.Uint160]*state.Contract{}
+	perName := map[string]int{}
+	for _, c := range cs {
+		byHash[c.Hash] = c
+		perName[c.Manifest.Name]++
+	}
+	resolved := map[util.Uint160]string{}
+	check := func(name string, fsKey string) {
+		recs, err := nd.resolve(nns, name+".neofs")
+		if err != nil || len(recs) != 1 {
+			bad = append(bad, fmt.Sprintf("%s.neofs resolves to %d records (%v)", name, len(recs), err))
+			return
+		}
+		h, err := util.Uint160DecodeStringLE(recs[0])
+		if err != nil {
+			bad = append(bad, fmt.Sprintf("%s.neofs holds %q", name, recs[0]))
+			return
+		}
+		c := byHash[h]
+		want := nd.fsc[fsIndex[fsKey]]
+		switch {
+		case c == nil:
+			bad = append(bad, fmt.Sprintf("%s.neofs points at %s which is not on chain", name, recs[0]))
+		case c.NEF.Checksum != want.NEF.Checksum || string(c.NEF.Script) != string(want.NEF.Script) || c.Manifest.Name != want.Manifest.Name:
+			bad = append(bad, fmt.Sprintf("%s.neofs points at a contract that does not carry the supplied executable", name))
+		}
+		if prev, dup := resolved[h]; dup {
+			bad = append(bad, fmt.Sprintf("%s.neofs and %s.neofs name the same contract", name, prev))
+		}
+		resolved[h] = name
+		out.Names[name] = recs[0]
+	}
+	if out.NNSID1 {
+		for _, nm := range systemNames {
+			check(nm, nm)
+		}
+		for i := 0; i < n; i++ {
+			check(fmt.Sprintf("alphabet%d", i), "alphabet")
+		}
+	}
+	// exactly once: nothing on chain besides NNS and the named contracts, every system executable once, Alphabet n times
+	if len(cs) != 1+len(systemNames)+n {
+		bad = append(bad, fmt.Sprintf("%d contracts on chain, expected %d", len(cs), 1+len(systemNames)+n))
+	}
+	for _, nm := range append([]string{"nns"}, systemNames...) {
+		if k := perName[nd.fsc[fsIndex[nm]].Manifest.Name]; k != 1 {
+			bad = append(bad, fmt.Sprintf("%d contracts named %q on chain", k, nd.fsc[fsIndex[nm]].Manifest.Name))
+		}
+	}
+	if k := perName[nd.fsc[8].Manifest.Name]; k != n {
+		bad = append(bad, fmt.Sprintf("%d Alphabet contracts on chain for %d members", k, n))
+	}
+	if wantUpdates >= 0 {
+		for _, c := range cs {
+			if int(c.UpdateCounter) != wantUpdates {
+				bad = append(bad, fmt.Sprintf("contract %d (%s) was updated %d times, expected %d", c.ID, c.Manifest.Name, c.UpdateCounter, wantUpdates))
+			}
+		}
+	}
+	return bad
 }
 
 type outcome struct {
@@ -947,75 +1035,7 @@ func (w *world) opDeploy(line string, n int, kv map[string]string) string {
 	out.Txs = len(nd.txsBetween(start, end))
 
 	// afterwards: roles, NNS id, names, executables
-	var bad []string
-	out.Notary, out.Alphabet = nd.roleIs(noderoles.P2PNotary), nd.roleIs(noderoles.NeoFSAlphabet)
-	if !out.Notary {
-		bad = append(bad, "Notary role is not designated to exactly the committee")
-	}
-	if !out.Alphabet {
-		bad = append(bad, "NeoFSAlphabet role is not designated to exactly the committee")
-	}
-	cs := nd.contractsOnChain()
-	out.Contracts = len(cs)
-	var nns util.Uint160
-	if len(cs) > 0 && cs[0].ID == 1 && cs[0].Manifest.Name == nd.fsc[0].Manifest.Name && cs[0].NEF.Checksum == nd.fsc[0].NEF.Checksum {
-		out.NNSID1 = true
-		nns = cs[0].Hash
-	} else {
-		bad = append(bad, "contract with ID 1 is not the supplied NNS executable")
-	}
-	byHash := map[util.Uint160]*state.Contract{}
-	perName := map[string]int{}
-	for _, c := range cs {
-		byHash[c.Hash] = c
-		perName[c.Manifest.Name]++
-	}
-	resolved := map[util.Uint160]string{}
-	check := func(name string, fsKey string) {
-		recs, err := nd.resolve(nns, name+".neofs")
-		if err != nil || len(recs) != 1 {
-			bad = append(bad, fmt.Sprintf("%s.neofs resolves to %d records (%v)", name, len(recs), err))
-			return
-		}
-		h, err := util.Uint160DecodeStringLE(recs[0])
-		if err != nil {
-			bad = append(bad, fmt.Sprintf("%s.neofs holds %q", name, recs[0]))
-			return
-		}
-		c := byHash[h]
-		want := nd.fsc[fsIndex[fsKey]]
-		switch {
-		case c == nil:
-			bad = append(bad, fmt.Sprintf("%s.neofs points at %s which is not on chain", name, recs[0]))
-		case c.NEF.Checksum != want.NEF.Checksum || string(c.NEF.Script) != string(want.NEF.Script) || c.Manifest.Name != want.Manifest.Name:
-			bad = append(bad, fmt.Sprintf("%s.neofs points at a contract that does not carry the supplied executable", name))
-		}
-		if prev, dup := resolved[h]; dup {
-			bad = append(bad, fmt.Sprintf("%s.neofs and %s.neofs name the same contract", name, prev))
-		}
-		resolved[h] = name
-		out.Names[name] = recs[0]
-	}
-	if out.NNSID1 {
-		for _, nm := range systemNames {
-			check(nm, nm)
-		}
-		for i := 0; i < n; i++ {
-			check(fmt.Sprintf("alphabet%d", i), "alphabet")
-		}
-	}
-	// exactly once: nothing on chain besides NNS and the named contracts, every system executable once, Alphabet n times
-	if len(cs) != 1+len(systemNames)+n {
-		bad = append(bad, fmt.Sprintf("%d contracts on chain, expected %d", len(cs), 1+len(systemNames)+n))
-	}
-	for _, nm := range append([]string{"nns"}, systemNames...) {
-		if k := perName[nd.fsc[fsIndex[nm]].Manifest.Name]; k != 1 {
-			bad = append(bad, fmt.Sprintf("%d contracts named %q on chain", k, nd.fsc[fsIndex[nm]].Manifest.Name))
-		}
-	}
-	if k := perName[nd.fsc[8].Manifest.Name]; k != n {
-		bad = append(bad, fmt.Sprintf("%d Alphabet contracts on chain for %d members", k, n))
-	}
+	bad := nd.checkFinal(n, &out, 0)
 	// the Notary bootstrap: signatures of the accepted designation
 	if n > 1 {
 		found, signers, valid := nd.designationTx()
@@ -1123,6 +1143,161 @@ func (w *world) opDeploy(line string, n int, kv map[string]string) string {
 	return fmt.Sprintf("HALT ret=%s | notary=%v alphabet=%v nns1=%v contracts=%d names=%d rerun=%s", verdict, out.Notary, out.Alphabet, out.NNSID1, out.Contracts-1-len(systemNames), len(out.Names), rr)
 }
 
+// oldContracts compiles the nine FS-chain contracts of the repository under test in a scratch copy whose
+// common.Version is one less than the current one: executables that the procedure has to UPDATE to the supplied ones.
+func oldContracts(t testing.TB, cur []contracts.Contract) ([]contracts.Contract, func()) {
+	sc, err := chainx.NewScratch()
+	if err != nil {
+		t.Fatal(err)
+	}
+	root, err := sc.Dir(common.Version - 1)
+	if err != nil {
+		sc.Close()
+		t.Fatal(err)
+	}
+	names := []string{"nns", "proxy", "audit", "netmap", "balance", "reputation", "neofsid", "container", "alphabet"}
+	out := make([]contracts.Contract, len(names))
+	for i, nm := range names {
+		p := filepath.Join(root, "contracts", nm)
+		ct := neotest.CompileFile(t, util.Uint160{}, p, filepath.Join(p, "config.yml"))
+		out[i] = contracts.Contract{NEF: *ct.NEF, Manifest: *ct.Manifest}
+		if out[i].Manifest.Name != cur[i].Manifest.Name {
+			t.Fatalf("scratch contract %s is named %q, embedded one %q", nm, out[i].Manifest.Name, cur[i].Manifest.Name)
+		}
+	}
+	return out, sc.Close
+}
+
+// opUpgrade: the committee first deploys executables of the previous version, then every member runs the procedure
+// with the supplied (current) executables: every contract has to be UPDATED exactly once through Notary requests of
+// the committee. The second run starts `before` blocks ahead of a multiple of 100 and the members enter it with the
+// given delays, so that the update stages straddle a boundary of the nonce/ValidUntilBlock window.
+func (w *world) opUpgrade(line string, n int, kv map[string]string) string {
+	delays := parseInts(kv["delays"])
+	before, _ := strconv.Atoi(kv["before"])
+	nd := newNode(w.t, n)
+	defer nd.close()
+	cur := nd.fsc
+	old, cleanup := oldContracts(w.t, cur)
+	defer cleanup()
+	deadline := time.Now().Add(240 * time.Second)
+	fail := func(ms []*member, what, detail string) string {
+		last := ""
+		for _, m := range ms {
+			if m != nil {
+				m.tap.mu.Lock()
+				last += fmt.Sprintf(" [%d: %s]", m.idx, m.tap.last)
+				m.tap.mu.Unlock()
+				m.cancel()
+			}
+		}
+		w.viol("deploy.Deploy", what, detail+"; last log lines:"+last, line)
+		w.run.Count("out.upgrade." + what)
+		return "HALT ret=" + what
+	}
+	wait := func(ms []*member, phase string, start uint32) (string, bool) {
+		var errs []string
+		for i, m := range ms {
+			returned := false
+			for !returned {
+				select {
+				case err := <-m.res:
+					if err != nil {
+						errs = append(errs, fmt.Sprintf("member %d: %v", i, err))
+					}
+					returned = true
+				case <-time.After(200 * time.Millisecond):
+					if nd.height() > start+1200 || time.Now().After(deadline) || nd.prodErr.Load() != nil {
+						return fail(ms, "not-converged", fmt.Sprintf("%s, n=%d: member %d has not returned after %d blocks (height %d, producer: %v)", phase, n, i, nd.height()-start, nd.height(), nd.prodErr.Load())), false
+					}
+				}
+			}
+		}
+		if len(errs) > 0 {
+			return fail(ms, "deploy-error", phase+": "+strings.Join(errs, "; ")), false
+		}
+		return "", true
+	}
+	// 1. deployment of the previous version
+	nd.fsc = old
+	s0 := nd.height()
+	ms := make([]*member, n)
+	for i := range ms {
+		ms[i] = nd.start(i, 0)
+	}
+	if r, ok := wait(ms, "deployment of the previous version", s0); !ok {
+		return r
+	}
+	var out outcome
+	out.Names = map[string]string{}
+	if bad := nd.checkFinal(n, &out, 0); len(bad) > 0 {
+		w.viol("deploy.Deploy", "wrong-final-state", "after deploying the previous version: "+strings.Join(bad, "; "), line)
+		return "HALT ret=wrong-final-state"
+	}
+	// 2. the procedure with the supplied executables, entered shortly before a multiple of 100
+	nd.fsc = cur
+	target := (nd.height()/100+1)*100 - uint32(before)
+	if target <= nd.height() {
+		target += 100
+	}
+	nd.waitHeight(target, deadline)
+	s1 := nd.height()
+	for i := range ms {
+		d := 0
+		if i < len(delays) {
+			d = delays[i]
+		}
+		ms[i] = nd.start(i, time.Duration(d)*time.Millisecond)
+	}
+	if r, ok := wait(ms, "update to the supplied executables", s1); !ok {
+		return r
+	}
+	end := nd.height()
+	out = outcome{Names: map[string]string{}, Height: end}
+	bad := nd.checkFinal(n, &out, 1)
+	if len(bad) > 0 {
+		w.viol("deploy.Deploy", "wrong-final-state", "after the update: "+strings.Join(bad, "; "), line)
+		w.run.Count("out.upgrade.wrong-final-state")
+	}
+	// 3. once more: nothing left to do
+	nd.waitHeight(end+2, deadline)
+	h0 := nd.height()
+	fp := nd.fingerprint()
+	for i := range ms {
+		ms[i] = nd.start(i, 0)
+	}
+	if r, ok := wait(ms, "run after the update", h0); !ok {
+		return r
+	}
+	nd.waitHeight(nd.height()+3, deadline)
+	var changed []string
+	after := nd.fingerprint()
+	for _, k := range hx.SortedKeys(after) {
+		if fp[k] != after[k] {
+			changed = append(changed, fmt.Sprintf("%s: %s -> %s", k, fp[k], after[k]))
+		}
+	}
+	sent := 0
+	for _, ti := range nd.txsBetween(h0, nd.height()) {
+		if !ti.fallback {
+			sent++
+		}
+	}
+	if len(changed) > 0 || sent > 0 {
+		w.viol("deploy.Deploy", "rerun-not-idempotent", fmt.Sprintf("run after the update: %d transactions in blocks, state changed %v", sent, changed), line)
+	}
+	w.run.Count("out.upgrade.converged")
+	w.run.Count(fmt.Sprintf("out.upgrade.crossed-window-%v", s1/100 != end/100))
+	j, _ := json.Marshal(out)
+	w.run.Sample(fmt.Sprintf("%s  =>  second run from height %d to %d: %s", line, s1, end, string(j)))
+	verdict := "ok"
+	if len(bad) > 0 {
+		verdict = "wrong-final-state"
+	}
+	return fmt.Sprintf("HALT ret=%s | notary=%v alphabet=%v nns1=%v contracts=%d names=%d updated=%v rerun=%d/%d", verdict, out.Notary, out.Alphabet, out.NNSID1,
+		out.Contracts-1-len(systemNames), len(out.Names), len(bad) == 0, sent, len(changed))
+}
+
 // ---------------------------------------------------------------- schedules
 
 type sched struct {
@@ -1213,6 +1388,10 @@ func schedules(run *hx.Run) []sched {
 	// outside the property's quantifier, compared with the model only: the designation transaction is lost once;
 	// the model says the leader never sends another one (triedDesignateRoleTx is never reset)
 	out = append(out, sched{"nonwf", "op boot n=2 live=0,1 lose=1 blocks=330"})
+	// the UPDATE path: executables of the previous version are on chain, the members enter the procedure with the
+	// supplied ones shortly before a multiple of 100 (boundary of the nonce/ValidUntilBlock window) with seeded delays
+	out = append(out, sched{"wf", fmt.Sprintf("op upgrade n=2 delays=0,%d before=%d", 800+rng.IntN(1500), 5+rng.IntN(20))})
+	out = append(out, sched{"wf", fmt.Sprintf("op upgrade n=4 delays=%s before=%d", delays(4, 2500), 5+rng.IntN(20))})
 	for n := 1; n <= 7; n++ {
 		// plain run, all members at once
 		out = append(out, sched{"wf", fmt.Sprintf("op deploy n=%d delays=%s absent=- cancel=- rerun=1", n, delays(n, 0))})
